@@ -1,5 +1,5 @@
 (* Case evaluator for the C15 correspondence shards (index/bytes part). *)
-From GL Require Import Common.Bytes Str.StrModel.
+From GL Require Import Common.Bytes Str.StrModel Str.FormatModel Str.MathWModel.
 
 Inductive case :=
 | CSub (s : bytes) (i j : Z) (obs : bytes)
@@ -11,9 +11,33 @@ Inductive case :=
 | CUpper (s obs : bytes)
 | CLower (s obs : bytes)
 | CLen (s : bytes) (obs : Z)
-| CChar (l : list Z) (obs : bytes).
+| CChar (l : list Z) (obs : bytes)
+| CFormat (f : bytes) (args : list farg) (obs : fres)
+| CMath (op : mop) (args : list num) (obs : mres num)
+| CRandom (args : list num) (obs : option Z)        (* None: the call raised *)
+| CGoSide (agree : bool).   (* a thin wrapper (pow exp log trig ...) compared with Go's math on the Go side *)
 
 Definition pair_eqb (a b : Z * Z) := (fst a =? fst b) && (snd a =? snd b).
+
+Definition fres_eqb (a b : fres) : bool :=
+  match a, b with
+  | FOk x, FOk y => beqb x y
+  | FErr, FErr => true
+  | _, _ => false
+  end.
+
+(* every directive of the call lies where ISO C defines printf's behaviour *)
+Fixpoint items_defined (its : list item) (args : list farg) : bool :=
+  match its with
+  | [] => true
+  | ILit _ :: r => items_defined r args
+  | IBad :: _ => false
+  | IDir sp :: r =>
+    match args with
+    | [] => true
+    | a :: args' => c_defined sp a && items_defined r args'
+    end
+  end.
 
 Definition check_impl (c : case) : bool :=
   match c with
@@ -27,6 +51,15 @@ Definition check_impl (c : case) : bool :=
   | CLower s o => beqb (strLower s) o
   | CLen s o => strLen s =? o
   | CChar l o => beqb (strChar l) o
+  | CFormat f args o => fres_eqb (format true f args) o
+  | CMath op args o => mres_eqb (run_math op args) o
+  | CRandom args o =>
+    match run_random args o, o with
+    | MOk [r], Some z => num_eqb r (of_Z z)
+    | MErr, None => true
+    | _, _ => false
+    end
+  | CGoSide b => b
   end.
 
 Definition check_spec (c : case) : bool :=
@@ -41,4 +74,9 @@ Definition check_spec (c : case) : bool :=
   | CLower s o => beqb (map tolower_c s) o
   | CLen s o => len s =? o
   | CChar l o => beqb l o
+  | CFormat f args o =>
+    if items_defined (parse_fmt (length f) f) args then fres_eqb (format false f args) o else true
+  | CMath op args o => spec_math op args o
+  | CRandom args o => spec_random args o
+  | CGoSide b => b
   end.
